@@ -64,7 +64,7 @@ MODELS = {
     "duelprobe": dict(module="MC_Rot.tla", quick=["MC_Rot_quick.cfg", "MC_Rot_always.cfg"],
                       thorough=["MC_Rot_quick.cfg", "MC_Rot_always.cfg", "MC_Rot_thorough.cfg"],
                       controls=[("MC_Rot_unlocked_settled.cfg", "R_Settled"), ("MC_Rot_unlocked_claim.cfg", "R_Claim"),
-                                ("MC_Rot_unlocked_none.cfg", "R_NoneJustified")],
+                                ("MC_Rot_unlocked_none.cfg", "R_NoneJustified"), ("MC_Rot_coalesce_settled.cfg", "R_Settled")],
                       live=dict(quick=["MC_Rot_live.cfg"], thorough=["MC_Rot_live.cfg"]),
                       witnesses=[], variants=[], no_exempt=[], sim_cfg=None),
 }
